@@ -48,7 +48,9 @@ func NewForwardedModifier() martian.RequestModifier {
 				xff = req.RemoteAddr
 			}
 
-			if v := req.Header.Get("X-Forwarded-For"); v != "" {
+			// X-Forwarded-For is a list that may be spread over several header
+			// lines; keep the addresses of all of them in front of ours.
+			if v := joinValues(req.Header["X-Forwarded-For"]); v != "" {
 				xff = v + ", " + xff
 			}
 
